@@ -287,6 +287,12 @@ func c13Tiny(r *Run, st *c13Stats) error {
 			inputs = append(inputs, first+tl)
 		}
 	}
+	// files that end in the middle of a multi-byte character: inside every kind of token that can hold one
+	for _, open := range []string{"\"", "`", "print(\"caf", "x := `10 ", "// caf", "/* caf", "x", "print(1)\n", "import l \"caf", "\"a\\"} {
+		for _, part := range []string{"\xc3", "\xe2", "\xe2\x82", "\xf0", "\xf0\x9f", "\xf0\x9f\x98", "\xc3\xa9\xc3", "\x80", "\xc0\xaf", "\xed\xa0\x80"} {
+			inputs = append(inputs, open+part)
+		}
+	}
 	// every vocabulary token after something that produces no token (blanks, a tab, a comment)
 	for _, a := range gen.Vocab {
 		inputs = append(inputs, " "+a, "\t"+a+"\n", "/* c */"+a+"\n", "   "+a+" + 3\n")
